@@ -2040,6 +2040,19 @@ func ruleHS2(c *Ctx) *rule {
 				continue
 			}
 			for _, in := range b.Instrs {
+				// the library form of the same fold
+				if site, isCall := in.(ssa.CallInstruction); isCall {
+					if n := calleeName(site.Common()); n == "crypto/subtle.XORBytes" || n == "math/big.(*Int).Xor" || n == "(*math/big.Int).Xor" || n == "(*math/big.Int).Add" {
+						fs := c.newSlicer()
+						fs.depth = 0
+						fs.objFlow = true
+						fres := fs.run(site.Common().Args...)
+						if fres.hasField(prefix+hashField) || fres.hasField(prefix+fileField) {
+							r.bad(fmt.Sprintf("%s items folded arithmetically", fname(t.fn)), c.ipos(in),
+								"the per-file items are folded into the accumulator with "+n+": equal items cancel (a path that is listed twice), different collections of files give the same accumulator, so a change can leave the digest unchanged")
+						}
+					}
+				}
 				bo, ok := in.(*ssa.BinOp)
 				if !ok {
 					continue
